@@ -109,6 +109,12 @@ Inductive stmt : Type :=
 | SBoxF (x0 y0 x1 y1 a : Z)                           (* LINE ,BF *)
 | SView (x0 y0 x1 y1 : Z) (absolute : bool) (fill border : option Z)   (* VIEW [SCREEN] with validated corners *)
 | SPut (x y : Z) (sprite : matrix) (op : Z)           (* PUT: op 0 PSET, 1 PRESET, 2 AND, 3 OR, 4 XOR *)
+| SPixels (guard : Z) (pts : list (Z * Z * Z)) (err : Z)
+                                                      (* CIRCLE / ellipse (guard 0) and DRAW (guard 2): the single-pixel
+                                                         requests (y, x, attr) they issue in order - octant plotting,
+                                                         pie-slice lines and DRAW segments all end in graph_view[y, x] =
+                                                         attr (regenerated site table + writer-call check); err = the
+                                                         BASIC error that ended the statement (0 = none) *)
 | SReqs (guard : Z) (rqs : list wreq) (err : Z).      (* CIRCLE / PAINT / DRAW (guard 0 / 1 / 2) as the requests they
                                                          issued, and the error that ended them (0 = none) *)
 
@@ -157,6 +163,10 @@ Definition put_reqs (vp : viewport) (bpp : Z) (page : matrix) (x0 y0 : Z) (sprit
       else mat_zip Z.lxor cur sprite in
     Ok [WReq (ISlice (Some y0) (Some (y1 + 1))) (ISlice (Some x0) (Some (x1 + 1))) (Block rect)].
 
+(* a sprite as a ByteMatrix: every row has the width of the first (ByteMatrix asserts this on construction) *)
+Definition rectify (s : matrix) : matrix :=
+  let w := Z.to_nat (sprite_width s) in map (fun r => firstn w (r ++ repeat 0 w)) s.
+
 Definition the_page (st : gstate) : matrix := nth (g_apage st) (g_pages st) [].
 
 (* the text-mode guard of the statement (regenerated: it is the first statement of each method) *)
@@ -166,7 +176,7 @@ Definition stmt_guard (s : stmt) (is_text : bool) : res unit :=
   | SLine _ _ _ _ _ _ | SBox _ _ _ _ _ _ | SBoxF _ _ _ _ _ => raster_guard_line is_text
   | SView _ _ _ _ _ _ _ => raster_guard_view is_text
   | SPut _ _ _ _ => raster_guard_put is_text
-  | SReqs g _ _ => if g =? 0 then raster_guard_circle is_text
+  | SPixels g _ _ | SReqs g _ _ => if g =? 0 then raster_guard_circle is_text
                  else if g =? 1 then raster_guard_paint is_text
                  else raster_guard_draw is_text
   end.
@@ -180,15 +190,26 @@ Definition stmt_reqs (st : gstate) (s : stmt) : res (viewport * list wreq * view
   | SBox x0 y0 x1 y1 a p => bind (gen_box vp x0 y0 x1 y1 a p) (fun r => Ok (vp, r, vp))
   | SBoxF x0 y0 x1 y1 a => Ok (vp, gen_boxfill vp x0 y0 x1 y1 a, vp)
   | SView x0 y0 x1 y1 ab fill border =>
-    (* _set_view: unset, draw fill and border on the whole screen, then set *)
+    (* view_: range checks of the corners (regenerated; mode.pixel_width/height = size of the page matrix), then
+       _set_view: unset, draw fill and border on the whole screen, then set *)
+    bind (raster_view_checks (vp_maxw vp) (vp_maxh vp) x0 y0 x1 y1) (fun _ =>
     let u := vp_unset vp in
     let rf := match fill with Some f => gen_boxfill u x0 y0 x1 y1 f | None => [] end in
     bind (match border with
           | Some b => gen_box u (x0 - 1) (y0 - 1) (x1 + 1) (y1 + 1) b 65535
           | None => Ok []
-          end) (fun rb => Ok (u, rf ++ rb, vp_set vp x0 y0 x1 y1 ab))
-  | SPut x y sprite op => bind (put_reqs vp (g_bpp st) (the_page st) x y sprite op) (fun r => Ok (vp, r, vp))
+          end) (fun rb => Ok (u, rf ++ rb, vp_set vp x0 y0 x1 y1 ab)))
+  | SPut x y sprite op =>
+    bind (put_reqs vp (g_bpp st) (the_page st) x y (rectify sprite) op) (fun r => Ok (vp, r, vp))
+  | SPixels _ pts _ => Ok (vp, map (fun '(y, x, a) => WReq (IInt y) (IInt x) (Fill a)) pts, vp)
   | SReqs _ rqs _ => Ok (vp, rqs, vp)
+  end.
+
+(* the error that ended a replayed statement after its requests (0 = none) *)
+Definition stmt_err (s : stmt) : Z :=
+  match s with
+  | SPixels _ _ e | SReqs _ _ e => e
+  | _ => 0
   end.
 
 (* execute one statement: result and new state (unchanged on error) *)
@@ -198,7 +219,7 @@ Definition exec (st : gstate) (s : stmt) : res unit * gstate :=
     match stmt_reqs st s with
     | Ok (vpd, rqs, vpa) =>
       match vp_run vpd (the_page st) rqs with
-      | Ok m' => (match s with SReqs _ _ e => if e =? 0 then Ok tt else Err e | _ => Ok tt end,
+      | Ok m' => ((if stmt_err s =? 0 then Ok tt else Err (stmt_err s)),
                   GS (g_text st) (g_bpp st) (set_page (g_pages st) (g_apage st) m') (g_apage st) vpa)
       | Err e => (Err e, st) | Host x => (Host x, st) | OutOfFuel => (OutOfFuel, st)
       end
